@@ -156,11 +156,13 @@ class Check:
         self.trusted_base: list[str] = []
         self.bounded_results: list[dict] = []
         self.search_deadline = time.time() + 10 ** 9
+        self.native_deadline = time.time() + 10 ** 9
 
     def finish(self, results: list[dict], replay: Callable | None = None,
                search: Callable | None = None, rule: str = "") -> int:
         known = load_known(self.prop)
         self.search_deadline = time.time() + 90  # total budget for native witness searches
+        self.native_deadline = time.time() + 300  # total budget for native replays + searches
         if os.environ.get("PYVC_DUMP"):
             json.dump(results, open(os.environ["PYVC_DUMP"], "w"), indent=1, default=str)
         expected_path = os.path.join(ROOT, "contracts", "expected", f"{self.prop}.json")
@@ -196,12 +198,17 @@ class Check:
             # a failed obligation that is not a listed finding: violation
             model = o.get("model")
             reproduced, msg = False, ""
-            if replay is not None and model is not None:
+            native_left = time.time() < self.native_deadline
+            if not native_left:
+                msg = ("native replay budget of this run is used up (the obligation failed; "
+                       "run the replay file for the native scenario)")
+            if replay is not None and model is not None and native_left:
                 try:
                     reproduced, msg = _bounded(replay, 60, u, o["name"], model)
                 except Exception:
                     msg = "replay crashed: " + traceback.format_exc()
-            if not reproduced and search is not None and time.time() < self.search_deadline:
+            if not reproduced and search is not None and native_left \
+                    and time.time() < self.search_deadline:
                 try:
                     found = _bounded(search, 120, u, o["name"], self.seed)
                 except Exception:
